@@ -332,9 +332,16 @@ def sweepmatch_cases(quick):
             'noise_deformation': None, 'noise_kwargs': {}, 'error_rate': 0.1,
             'seeds': [0, 1] if quick else [0, 1, 2, 3, 4]}
     top = 4 if quick else 5
-    for size in itertools.product(range(3, top + 1), repeat=3):
-        out.append(dict(base, decoder='SweepMatchDecoder',
-                        code=domain.code_case('Toric3DCode', size)))
+    # the claim does not depend on the prior the decoder was built with:
+    # one-sided, two-sided and zero-rate priors besides the depolarising one
+    priors = [([1 / 3, 1 / 3, 1 / 3], 0.1), ([0, 0, 1], 0.1), ([1, 0, 0], 0.1), ([1 / 3, 1 / 3, 1 / 3], 0.0),
+              ([0, 1, 0], 0.2), ([0.5, 0, 0.5], 0.05), ([0, 0, 1], 0.0), ([0.5, 0.5, 0], 0.3)]
+    for i, size in enumerate(itertools.product(range(3, top + 1), repeat=3)):
+        for j in ((0, 1 + i % 7) if quick else (0, 1 + i % 7, 1 + (i + 3) % 7)):
+            base = dict(base, direction=priors[j][0], error_rate=priors[j][1])
+            out.append(dict(base, decoder='SweepMatchDecoder',
+                            code=domain.code_case('Toric3DCode', size)))
+        base = dict(base, direction=priors[(3 * i) % 8][0], error_rate=priors[(3 * i) % 8][1])
         # every documented budget buys at least one full round of the eight
         # sweep directions, which is what a single-qubit error needs
         for dp in ({}, {'max_rounds': 1}, {'max_rounds': 2}, {'max_rounds': 5}):
